@@ -21,11 +21,11 @@ Section StepsB7.
 
   Lemma S_stage2 g a tr t r pl :
     In r (vb_own (bvs a t)) -> vb_dead (bvs a t) <> Some r -> (forall ob, vb_move (bvs a t) <> Some (r, ob)) ->
-    (vb_full (bvs a t) = None \/ vb_full (bvs a t) = Some r) -> vb_freed (bvs a t) = [] ->
+    (vb_full (bvs a t) = None \/ vb_full (bvs a t) = Some r) -> vb_freed (bvs a t) = [] -> vb_s0 (bvs a t) = None ->
     JB c g a tr ->
     JB c (fst (stage2 c r pl g)) (aux_st2 a t r (fst (snd (stage2 c r pl g))) (snd (snd (stage2 c r pl g)))) tr.
   Proof.
-    intros Hr Hd Hnm Hfu Hfr J.
+    intros Hr Hd Hnm Hfu Hfr Hs0 J.
     assert (Hcase : rch a r = [] \/ rch a r <> []) by (destruct (rch a r); [left|right]; congruence).
     destruct Hcase as [Ech|Hne].
     - (* no array *)
@@ -62,7 +62,7 @@ Section StepsB7.
       assert (Hfu' : forall r0, vb_full v' = Some r0 -> r0 = r) by (unfold v'; destruct ext; cbn; congruence).
       destruct (arr_op c HRB1 g g' a tr t r v' (fun q => if memb q freed then LFly t else wh a q) w' J Hr Hne Hmv Hnm Hfu F I' Hw' Hfu'
                   eq_refl eq_refl eq_refl eq_refl eq_refl eq_refl eq_refl eq_refl) as (JO' & JK' & JR' & Eec).
-      destruct J as [O1 K1 R1 [W1 W2 W3 W4 W5 W6 W7]].
+      destruct J as [O1 K1 R1 [W1 W2 W3 W4 W5 W6 W7 W8 W9]].
       constructor; auto.
       assert (El : List.length (recs g') = List.length (recs g)) by (destruct F as (X & _); exact X).
       assert (EC : ec g a r = content g (rch a r) (rw a r)) by (unfold ec; rewrite Hmv; reflexivity).
@@ -93,7 +93,7 @@ Section StepsB7.
         { intros ->. pose proof R1 as [_ _ R3 _ _ _]. destruct (R3 t' r None Hm') as (Z & _).
           assert (t = t') by (eapply (JO_excl g a t t' r); eauto). subst t'. eapply Hnm; eauto. }
         rewrite fn_other by exact N. apply (W6 t' r'); auto.
-      + rewrite Eoob. intros Hoob. destruct (W7 Hoob) as [C1 C2 C3 C4 C5 C6]. constructor; cbn [aux_arr bvs wh tl rch].
+      + rewrite Eoob. intros Hoob. destruct (W7 Hoob) as [C1 C2 C3 C4 C5 C6 C7]. constructor; cbn [aux_arr bvs wh tl rch].
         * intros q Hq. destruct (memb q freed); [discriminate|now apply C1].
         * intros q r'. rewrite El. destruct (memb q freed) eqn:Hm; [discriminate|]. intros H. destruct (C2 q r' H) as (X1 & X2). split; auto.
           destruct (Nat.eq_dec r' r) as [->|Nr]; [|rewrite Eec by auto; exact X2].
@@ -108,6 +108,17 @@ Section StepsB7.
         * intros r' Hr'. rewrite El in Hr'. destruct (C5 r' Hr') as [X|(t' & nx & X)]; [now left|right; exists t', nx].
           unfold fn. destruct (Nat.eqb_spec t' t) as [->|]; cbn; auto.
         * intros t' r' nx H. apply (C6 t' r' nx). revert H. unfold fn. destruct (Nat.eqb_spec t' t) as [->|]; cbn; auto.
+        * intros t' r' H. assert (H' : vb_arr (bvs a t') = Some r') by (revert H; unfold fn; destruct (Nat.eqb_spec t' t) as [->|]; cbn; auto).
+          destruct (C7 t' r' H') as (X1 & X2). split; [unfold fn; destruct (Nat.eqb_spec t' t) as [->|]; cbn; auto|exact X2].
+      + rewrite Eoob. exact W8.
+      + destruct W9 as [H1 H2 H3]. constructor; cbn [aux_arr bvs wh].
+        * intros t' r' E. assert (E' : vb_mine (bvs a t') = Some r') by (revert E; unfold fn, v'; destruct (Nat.eqb_spec t' t) as [->|]; cbn; auto).
+          destruct (H1 t' r' E') as (X1 & X2 & X3). split; [unfold fn, v'; destruct (Nat.eqb_spec t' t) as [->|]; cbn; auto|]. split; auto.
+          intros q Hq. destruct (memb q freed) eqn:Hm; [|auto].
+          apply memb_In in Hm. pose proof (Hfwh q Hm) as Y. destruct (X3 q Hq) as [Z|[Z|Z]]; try congruence.
+          rewrite Y in Z. inversion Z; subst r'. assert (t = t') by (eapply (JO_excl g a t t' r); eauto). subst t'. auto.
+        * intros t' r' E. specialize (H2 t' r' E). revert H2. unfold fn, v'. destruct (Nat.eqb_spec t' t) as [->|]; cbn; auto.
+        * intros t' r'. unfold fn, v'. destruct (Nat.eqb_spec t' t) as [->|]; cbn; [|apply H3]. intros E. rewrite Hs0 in E. discriminate.
   Qed.
 
   (** the disposer is called on the pointers stage 2 freed *)
@@ -118,7 +129,7 @@ Section StepsB7.
   Lemma S_dispose g a tr t :
     JB c g a tr -> JB c g (aux_disp a t (vb_freed (bvs a t))) (tr ++ Conc.tag t (map ev_dispose (vb_freed (bvs a t)))).
   Proof.
-    intros [O1 K1 R1 [W1 W2 W3 W4 W5 W6 W7]]. set (freed := vb_freed (bvs a t)).
+    intros [O1 K1 R1 [W1 W2 W3 W4 W5 W6 W7 W8 W9]]. set (freed := vb_freed (bvs a t)).
     assert (Hfwh : forall q, In q freed -> wh a q = LFly t) by (intros q Hq; now apply W3).
     assert (Hnf : forall q, wh a q <> LFly t -> memb q freed = false) by (intros q H; apply memb_nIn; intros K; apply H; now apply Hfwh).
     constructor.
@@ -143,7 +154,7 @@ Section StepsB7.
       + intros t' r'. cbn [aux_disp bvs moved rw]. intros Hm Hc'. apply (W6 t' r').
         * revert Hm. unfold fn. destruct (Nat.eqb_spec t' t) as [->|]; cbn; auto.
         * revert Hc'. unfold fn. destruct (Nat.eqb_spec t' t) as [->|]; cbn; auto.
-      + intros Hoob. destruct (W7 Hoob) as [C1 C2 C3 C4 C5 C6]. constructor; cbn [aux_disp bvs wh tl rch].
+      + intros Hoob. destruct (W7 Hoob) as [C1 C2 C3 C4 C5 C6 C7]. constructor; cbn [aux_disp bvs wh tl rch].
         * intros q Hq. destruct (memb q freed); [discriminate|now apply C1].
         * intros q r'. destruct (memb q freed); [discriminate|]. change (ec g (aux_disp a t freed) r') with (ec g a r'). apply C2.
         * intros q t'. destruct (memb q freed) eqn:Hm; [discriminate|]. intros H. destruct (C3 q t' H) as (X1 & X2).
@@ -153,5 +164,17 @@ Section StepsB7.
         * intros r' Hr'. destruct (C5 r' Hr') as [X|(t' & nx & X)]; [now left|right; exists t', nx].
           unfold fn. destruct (Nat.eqb_spec t' t) as [->|]; cbn; auto.
         * intros t' r' nx H. apply (C6 t' r' nx). revert H. unfold fn. destruct (Nat.eqb_spec t' t) as [->|]; cbn; auto.
+        * intros t' r' H. assert (H' : vb_arr (bvs a t') = Some r') by (revert H; unfold fn; destruct (Nat.eqb_spec t' t) as [->|]; cbn; auto).
+          destruct (C7 t' r' H') as (X1 & X2). split; [unfold fn; destruct (Nat.eqb_spec t' t) as [->|]; cbn; auto|exact X2].
+      + exact W8.
+      + destruct W9 as [H1 H2 H3].
+        assert (Hs : DhpConsSTrace.HSame tr (tr ++ Conc.tag t (map ev_dispose freed))).
+        { apply DhpConsSTrace.HSame_hq. apply Forall_forall. intros e He. apply in_map_iff in He. destruct He as (q & <- & _). split; [reflexivity|]. now rewrite classify_dispose. }
+        constructor; cbn [aux_disp bvs wh].
+        * intros t' r' E. assert (E' : vb_mine (bvs a t') = Some r') by (revert E; unfold fn; destruct (Nat.eqb_spec t' t) as [->|]; cbn; auto).
+          destruct (H1 t' r' E') as (X1 & X2 & X3). split; [unfold fn; destruct (Nat.eqb_spec t' t) as [->|]; cbn; auto|].
+          destruct (Hs t') as (-> & -> & _). split; auto. intros q Hq. destruct (memb q freed); auto.
+        * intros t' r' E. apply (Hs t') in E. specialize (H2 t' r' E). revert H2. unfold fn. destruct (Nat.eqb_spec t' t) as [->|]; cbn; auto.
+        * intros t' r'. unfold fn. destruct (Nat.eqb_spec t' t) as [->|]; cbn; [|apply H3]. intros E. destruct (H3 t r' E) as (Y1 & Y2 & Y3). auto.
   Qed.
 End StepsB7.
